@@ -416,6 +416,14 @@ impl Logger {
     pub fn max_log_level(&self) -> LevelFilter {
         self.0.load().root.max_log_level()
     }
+
+    /// A handle to this logger, without installing it as the global logger.
+    #[cfg(feature = "verif_hooks")]
+    pub fn verif_handle(&self) -> Handle {
+        Handle {
+            shared: self.0.clone(),
+        }
+    }
 }
 
 impl log::Log for Logger {
@@ -429,6 +437,8 @@ impl log::Log for Logger {
 
     fn log(&self, record: &log::Record) {
         let shared = self.0.load();
+        #[cfg(feature = "verif_hooks")]
+        crate::verif::point("log.loaded");
         if let Err(errs) = shared
             .root
             .find(record.target())
@@ -462,7 +472,11 @@ impl Handle {
     pub fn set_config(&self, config: Config) {
         let shared = SharedLogger::new(config);
         log::set_max_level(shared.root.max_log_level());
+        #[cfg(feature = "verif_hooks")]
+        crate::verif::point("set_config.built");
         self.shared.store(Arc::new(shared));
+        #[cfg(feature = "verif_hooks")]
+        crate::verif::point("set_config.stored");
     }
 }
 
